@@ -61,7 +61,7 @@ func DecodeCRI(data []byte) (row CRIRow, _ error) {
 	log := data
 	// remove \n from log for partial logs
 	if row.IsPartial {
-		log = log[:len(log)-1]
+		log = bytes.TrimSuffix(log, []byte{'\n'})
 	}
 
 	row.Log = log
